@@ -2,6 +2,7 @@
 # runs every claimed check once (tier = $1, default quick) and prints one line per check
 cd "$(dirname "$0")" || exit 2
 tier=${1:-quick}
+mkdir -p work
 for c in $(python3 -c "import json;print(' '.join(x['property_id'] for x in json.load(open('MANIFEST.json'))['checks']))"); do
   s=$(date +%s)
   ./check $c $tier > work/last_$c.log 2>&1
